@@ -878,6 +878,13 @@ def gen_sview(rng, order=None):
     col = [values[r][c] for r in range(n) if not fails[r]]
     if c in con_ix or rng.random() < 0.3:
       thr[c] = min(col) + (max(col) - min(col)) * rng.choice([0.2, 0.35, 0.5, 0.65, 0.8]) + (0.0 if max(col) > min(col) else 0.25)
+  if rng.random() < 0.3:
+    # thresholds far outside the observed range (a hard constraint nobody has met yet / one that everything meets): success probabilities in the
+    # deep tails, 1e-17 .. 1e-200 - positive numbers: "exactly 0 ONLY within a repulsion radius" (C19_m14)
+    for c in con_ix:
+      col = [values[r][c] for r in range(n) if not fails[r]]
+      k = 10.0 ** rng.uniform(0.0, 2.3)
+      thr[c] = rng.choice([min(col) - k * (max(col) - min(col) + spread[c]), max(col) + k * (max(col) - min(col) + spread[c])])
   hypers = []
   for _ in range(m):
     h = U.gen_hyper(rng, comps, False)
@@ -1244,6 +1251,9 @@ def oracle(kind, inp, out=None):
       if any(x < dp for x in ds):
         if v != 0.0:
           return fail("not-zero-within-radius", f"query point {k} is within the repulsion radius of a known configuration but its value is not 0", v, 0.0)
+      elif ref is not None and v == 0.0 and ref[k][0] > 1e-200:
+        return fail("zero-outside-every-radius", f"query point {k} is outside every repulsion radius, the modelled probability is {ref[k][0]:.3e} > 0, but the value is exactly 0",
+                    dict(value=v, members=[f[k] for f in out["factors"]]), ref[k][0])
       elif ref is not None and not close(v, ref[k][0], ref[k][1]):
         return fail("value-differs-from-per-metric-probability",
                     f"query point {k} is outside every repulsion radius but its value is not the product over the constraint metrics {raw['con_ix']} of the probability "
